@@ -3,9 +3,8 @@
 // (builder.NewPipelineBuilder) into a recording store that logs the address of
 // every Put, optionally links them into a directory manifest (pkg/manifest +
 // loadsave, one Store), and then asks pkg/traversal for the chunk sets the node
-// works with: Traverse, GetChunkHashes (data-chunk lists), GetPyramid (non-data
-// chunks) and the receiving side of a pyramid exchange (GetChunkHashes with the
-// pyramid on an empty store).  Addresses are logged as identifiers: every
+// works with: Traverse, GetChunkHashes (data-chunk lists) and GetPyramid (root and
+// non-data chunks).  Addresses are logged as identifiers: every
 // distinct byte string gets a number the first time it is seen (a 64-byte
 // reference is a different string than its first 32 bytes); `*32` fields hold
 // the identifiers of the first 32 bytes of each reported value.  No oracle here.
@@ -223,7 +222,6 @@ func run(sc kit.Scenario, out *kit.Out) error {
 	var entries []entry
 	var root boson.Address
 	haveRoot := false
-	var pyr map[string][]byte
 
 	out.Begin(sc.Scn, kit.Ev{"enc": enc, "err": "", "panicked": false})
 	for _, op := range sc.Ops {
@@ -357,6 +355,7 @@ func run(sc kit.Scenario, out *kit.Out) error {
 			if !haveRoot {
 				return fmt.Errorf("scenario %d: nothing to traverse", sc.Scn)
 			}
+			var pyr map[string][]byte
 			pan, msg := kit.Guard(func() { pyr, perr = tr.GetPyramid(ctx, root) })
 			o := &observed{tab: tab}
 			keys := make([]string, 0, len(pyr))
@@ -372,28 +371,6 @@ func run(sc kit.Scenario, out *kit.Out) error {
 				o.add(a.Bytes())
 			}
 			ev["p"], ev["p32"], ev["pl"] = distinct(o.full), distinct(o.first), o.lengths()
-			if pan {
-				ev["panicked"], ev["err"] = true, msg
-			} else {
-				ev["err"] = errs(perr)
-			}
-		case "exchange":
-			// the receiving side of a pyramid exchange: an empty store, the pyramid of the sender
-			if pyr == nil {
-				return fmt.Errorf("scenario %d: exchange before pyramid", sc.Scn)
-			}
-			st2 := newRecStore(tab)
-			tr2 := traversal.New(st2)
-			var hs [][][]byte
-			pan, msg := kit.Guard(func() { hs, _, perr = tr2.GetChunkHashes(ctx, root, pyr) })
-			o := &observed{tab: tab}
-			for _, l := range hs {
-				for _, b := range l {
-					o.add(b)
-				}
-			}
-			ev["d"], ev["d32"], ev["nlists"] = distinct(o.full), distinct(o.first), len(hs)
-			ev["w"] = st2.takePuts()
 			if pan {
 				ev["panicked"], ev["err"] = true, msg
 			} else {
